@@ -316,22 +316,22 @@ theorem stream_roundtrip_partial (key : Bytes) (nodes : List SNodeE) (rest : Byt
         for type 15: n = length, id = 0-0), and per group `XGROUP CREATE key g last
         [ENTRIESREAD r]` (target ≥ 7; `r` signed, -1 = unknown; for type 15 the tool's
         estimate), then per consumer one `XCLAIM key g consumer 0 id TIME t RETRYCOUNT c JUSTID
-        FORCE` per entry of its PEL, `t`, `c` from the group's PEL (NOTHING for a consumer
-        with an empty PEL: known finding C03-F1);
+        FORCE` per entry of its PEL, `t`, `c` from the group's PEL; for a consumer with an EMPTY
+        PEL `XGROUP CREATECONSUMER key g consumer` when the target is 6.2+ (session 5: repair of
+        known finding C03-F1, /repo fix commit), nothing on an older target;
     (2) replayed through the oracle — which follows t_stream.c: XSETID's range checks,
         XGROUP CREATE's ENTRIESREAD check, XCLAIM FORCE creating a pending entry ONLY for an
         id that is an entry of the stream — into any keyspace that does not hold the key,
         these commands leave exactly the logical value `s.xval`: entries with ids and field
         lists in order, last id, entries-added, max-deleted id, every group with its
-        last-delivered id, entries-read, its consumers (`consumersX`) and its pending entries
+        last-delivered id, entries-read, its consumers (`consumersIdeal`) and its pending entries
         with owner, delivery time and count RESTRICTED TO THE IDS THAT ARE STILL ENTRIES OF
         THE STREAM (`pelX`); no time to live, every other key untouched.
     LOST on the expansion path (kept by the RESTORE path; stated by the shape of `xval`):
     pending ids whose entry was deleted or trimmed — ordinary production data, but no
     command recreates them (Redis' own AOF rewrite loses them the same way); a consumer all
-    of whose pending ids are such; a consumer with an EMPTY PEL (known finding C03-F1: the
-    tool emits no XGROUP CREATECONSUMER although a 6.2+ target could hold it, `consumersIdeal`;
-    XINFO CONSUMERS then differs between the RESTORE path and the expansion path); seen-time /
+    of whose pending ids are such; a consumer with an EMPTY PEL on a target OLDER THAN 6.2 (no
+    command exists there; on 6.2+ it is recreated since the repair of C03-F1); seen-time /
     active-time; the IDMP state of type 26. The first-id field is recomputed by the target. -/
 theorem stream_roundtrip (x : XCfg) (k : Bytes) (s : StreamE) (rest : Bytes) (ks : Keyspace)
     (hwf : s.wf) (hs : s.sound) (hfresh : get ks k = none) :
@@ -981,9 +981,9 @@ example : exStream.xval { tgtMajor := 7 } =
     { entries := [⟨b!"1-1", [[97],[49],[98],[50]]⟩, ⟨b!"1-2", [[99],[51]]⟩, ⟨b!"1-4", [[97],[52],[98],[53]]⟩],
       lastId := b!"1-4", entriesAdded := some b!"4", maxDeleted := some b!"1-3",
       groups := [⟨[103], b!"1-2", some b!"2",
-        [⟨b!"1-1", [97], b!"1000", b!"2"⟩, ⟨b!"1-2", [98], b!"1001", b!"1"⟩], [[97], [98]]⟩] } := by decide +kernel
+        [⟨b!"1-1", [97], b!"1000", b!"2"⟩, ⟨b!"1-2", [98], b!"1001", b!"1"⟩], [[97], [98], [99]]⟩] } := by decide +kernel
 -- (the pending id 1-3 of the deleted entry, and with it consumer "d", cannot be recreated by commands;
---  the idle consumer "c" is dropped by the tool: known finding C03-F1 - a 6.2+ target could hold it)
+--  the idle consumer "c" is created by XGROUP CREATECONSUMER on a 6.2+ target: repair of C03-F1, session 5)
 -- … and on a Redis 6 target (no counters); the consumers that are recreated
 example : (exStream.xval { tgtMajor := 6 }).entriesAdded = none ∧
     ((exStream.xval { tgtMajor := 6 }).groups.map (·.entriesRead)) = [none] := by decide +kernel
@@ -996,8 +996,11 @@ example : ∀ g ∈ exStream.groups, g.pelPartition := by
   simp only [exStream, List.mem_singleton] at hg
   subst hg
   exact ⟨by decide, by decide⟩
--- the expansion: 3 XADD, XSETID, XGROUP CREATE, XCLAIM (a), XCLAIM (b), nothing for "c", XCLAIM (d: ignored by the target)
+-- the expansion: 3 XADD, XSETID, XGROUP CREATE, XCLAIM (a), XCLAIM (b), XGROUP CREATECONSUMER (c; nothing for it on a
+-- target older than 6.2), XCLAIM (d: ignored by the target)
 example : (exStream.cmds { tgtMajor := 7 } [115]).map (·.name) =
+    [b!"XADD", b!"XADD", b!"XADD", b!"XSETID", b!"XGROUP", b!"XCLAIM", b!"XCLAIM", b!"XGROUP", b!"XCLAIM"] ∧
+    (exStream.cmds { tgtMajor := 6, tgtMinor := 0 } [115]).map (·.name) =
     [b!"XADD", b!"XADD", b!"XADD", b!"XSETID", b!"XGROUP", b!"XCLAIM", b!"XCLAIM", b!"XCLAIM"] := by
   decide +kernel
 example : exStream.rtype = 21 := by decide
